@@ -24,6 +24,8 @@
  *   laddrs= 1 none 2 v4:0 4 v4:fixed 8 v6:0 16 v6:fixed
  *   ctos=   1 default 2 short     dnstos= 1 default 2 short      probes= 1 finish 2 send 4 receive
  *   pols=   1 accept 2 refuse 4 silent   (policies offered per address)
+ *   opts=   1 default tcp.* options 2 non-default ones in the creation map (C11: options in force on the descriptor
+ *                               that carries the connection, whichever address / family / track it was made on)
  *   certs=<dir>                 TLS credentials (tls-class transports use real XCM servers as peers)
  */
 #define _GNU_SOURCE
@@ -32,6 +34,7 @@
 #include <arpa/inet.h>
 #include <fcntl.h>
 #include <netinet/in.h>
+#include <netinet/tcp.h>
 #include <sys/epoll.h>
 #include <sys/socket.h>
 
@@ -69,6 +72,7 @@ static int t_list[40], t_pol[4], t_used[4];
 static int64_t g_cto_ns, g_dnsto_ns;
 static char t_desc[200];
 static int t_cap_hit = -1;
+static int t_opts;              /* 1: non-default tcp.* values in the creation map (C11 in-force oracle) */
 
 /* results of the client */
 static int g_cli_done, g_connected, g_errno;
@@ -93,6 +97,9 @@ static const char *ename(int e)
 {
     return e == EAFNOSUPPORT ? "EAFNOSUPPORT" : errname(e);
 }
+
+static void addr_host(const char *xa, char *out, size_t n, int *port);
+static int same_ip(const char *a, const char *b);
 
 static void sample(void)
 {
@@ -170,6 +177,7 @@ static void choose_table(const char *params)
     t_dns = pick(dns, 5, "T:dns");
     t_laddr = pick(laddrs, 5, "T:laddr");
     t_probe = pick(probes, 3, "T:probe");
+    t_opts = pick(param_int(params, "opts", 1), 2, "T:tcp-opts");
     int dns_ok = t_dns == DNS_NOW || t_dns == DNS_LATE;
     if (!strcmp(g_fam, "cap")) {
         /* the 32-entry cap of the result: 31 x v4a, then v4b at position capidx, v4a behind it */
@@ -414,6 +422,63 @@ static void srv_task(void *arg)
     close(ep);
 }
 
+/* ---- C11: the tcp.* options are in force on the descriptor that carries the connection --------------- */
+static void in_force(struct xcm_socket *s, const char *when)
+{
+    /* the descriptor: the one the last connect() to the connected address was issued on */
+    char rhost[64], ip[64];
+    int rport, cfd = -1, a0 = t_list[0], ra = -1;
+    addr_host(g_remote, rhost, sizeof rhost, &rport);
+    for (int i = 0; i < env_connect_log_count(); i++) {
+        int fd, port;
+        env_connect_log_entry(i, &fd, ip, sizeof ip, &port);
+        if (rhost[0] && same_ip(ip, rhost))
+            cfd = fd;
+    }
+    for (int a = 0; a < 4; a++)
+        if (rhost[0] && same_ip(rhost, ADDR[a]))
+            ra = a;
+    if (cfd < 0 || ra < 0 || !env_is_emulated_tcp(cfd))
+        return;
+    const char *fam = AFAM[ra] == AFAM[a0] ? "first" : "other";
+    static const struct { const char *attr; int level, opt, dflt, scale, is_bool; } O[] = {
+        { "tcp.keepalive", SOL_SOCKET, SO_KEEPALIVE, 0, 1, 1 },
+        { "tcp.keepalive_time", SOL_TCP, TCP_KEEPIDLE, 7200, 1, 0 },
+        { "tcp.keepalive_interval", SOL_TCP, TCP_KEEPINTVL, 75, 1, 0 },
+        { "tcp.keepalive_count", SOL_TCP, TCP_KEEPCNT, 9, 1, 0 },
+        { "tcp.user_timeout", SOL_TCP, TCP_USER_TIMEOUT, 0, 1000, 0 },
+    };
+    for (size_t k = 0; k < sizeof O / sizeof O[0]; k++) {
+        int64_t want;
+        if (O[k].is_bool) {
+            bool b;
+            if (API("xcm_attr_get", 1, xcm_attr_get_bool(s, O[k].attr, &b)) < 0)
+                continue;
+            want = b;
+        } else {
+            int64_t v;
+            if (API("xcm_attr_get", 1, xcm_attr_get_int64(s, O[k].attr, &v)) < 0)
+                continue;
+            want = v * O[k].scale;
+        }
+        int have = O[k].dflt;
+        env_sockopt_get(cfd, O[k].level, O[k].opt, &have);     /* never set: the kernel's default stays */
+        mc_count(7, 1);
+        if (have != want) {
+            char sig[200];
+            snprintf(sig, sizeof sig, "C11/not-in-force/%s/alg=%s/connected-on=%s-family/tp=%s", O[k].attr, ALGS[t_alg], fam, g_tp);
+            mc_violation(sig, "%s: xcm_attr_get(%s) says %lld (socket option value %lld) but the descriptor that carries the "
+                         "connection to %s has %d (%s) [%s]", when, O[k].attr, (long long)(want / O[k].scale), (long long)want,
+                         g_remote, have, env_sockopt_get(cfd, O[k].level, O[k].opt, &have) < 0 ?
+                         "never set on it: kernel default" : "last value set", t_desc);
+        }
+    }
+    int nd = 0;
+    if (env_sockopt_get(cfd, SOL_TCP, TCP_NODELAY, &nd) < 0 || nd != 1)
+        mc_info("C11/info/nodelay-not-set", "TCP_NODELAY is not set on the descriptor that carries the connection "
+                "(connected on the %s family of the answer) [%s]", fam, t_desc);
+}
+
 /* ---- client task ------------------------------------------------------------------------------ */
 static void cli_done(int connected, int err, const char *by)
 {
@@ -445,6 +510,12 @@ static void cli_task(void *arg)
         xcm_attr_map_add_double(a, "tcp.connect_timeout", 0.5);
     if (t_dnsto)
         xcm_attr_map_add_double(a, "dns.timeout", 2.0);
+    if (t_opts) {
+        xcm_attr_map_add_int64(a, "tcp.keepalive_time", 11);
+        xcm_attr_map_add_int64(a, "tcp.keepalive_interval", 13);
+        xcm_attr_map_add_int64(a, "tcp.keepalive_count", 5);
+        xcm_attr_map_add_int64(a, "tcp.user_timeout", 7);
+    }
     snprintf(addr, sizeof addr, "%s:h.verif.test:%d", g_tp, PORT);
     g_t0 = env_now_ns();
     mc_sched_point("xcm_connect_a");
@@ -493,6 +564,9 @@ static void cli_task(void *arg)
             const char *l = API("xcm_local_addr", 1, xcm_local_addr(s));
             snprintf(g_local, sizeof g_local, "%s", l ? l : "(null)");
             cli_done(1, 0, sent ? "xcm_send+xcm_finish" : op);
+            in_force(s, "when the connection is established");
+            API("xcm_finish", 1, xcm_finish(s));      /* (no scheduling point: the C13 frontier stays as it was) */
+            in_force(s, "at the end");
             break;
         }
         if (rc == 0) {          /* end of stream before any data: the peer is a harness listener, never */
@@ -787,6 +861,39 @@ static void oracle_conn(enum mc_end end)
         return;
     }
     /* happy eyeballs */
+    /* An accepting address of one family must not have to wait until the other, silent family's attempt is
+       given up.  Demanded only where nothing was withheld (no virtual time passed while the environment held back
+       an answer or the caller had an unserviced wake-up) and no local address turns entries into failed binds:
+       then every refusal is immediate, so if the accepting family has no silent entry ahead of its first accepting
+       one, the connection exists well before first-attempt + tcp.connect_timeout.  (How long before - the 200 ms
+       figure - stays INFO.) */
+    if (g_connected && t_laddr == LA_NONE && g_slow_ns == 0 && last4 >= 0 && last6 >= 0 && nconn > 0) {
+        for (int fam = 4; fam <= 6; fam += 2) {          /* fam = the family that is silent throughout */
+            int all_silent = 1, other_ok = 0, other_blocked = 0;
+            for (int i = 0; i < N; i++) {
+                if (AFAM[t_list[i]] == fam) {
+                    if (eff(i) != EFF_S)
+                        all_silent = 0;
+                } else if (!other_ok) {
+                    if (eff(i) == EFF_A)
+                        other_ok = 1;
+                    else if (eff(i) == EFF_S)
+                        other_blocked = 1;
+                }
+            }
+            if (!all_silent || !other_ok || other_blocked)
+                continue;
+            int64_t since = g_t_end - g_att_start[0];
+            if (since >= g_cto_ns) {
+                snprintf(sig, sizeof sig, "C13/happy-eyeballs/other-family-waits-for-timeout/tp=%s", g_tp);
+                VIOL(sig, "happy_eyeballs: every IPv%d address is silent and an IPv%d address accepts, nothing was withheld, "
+                     "yet the connection (%s) is reported %lld ms after the first attempt began - not before that attempt "
+                     "was given up (tcp.connect_timeout %lld ms): the accepting family waited for the silent one to time "
+                     "out [%s]", fam, fam == 4 ? 6 : 4, g_remote, (long long)(since / 1000000),
+                     (long long)(g_cto_ns / 1000000), t_desc);
+            }
+        }
+    }
     if (any_acc) {
         if (!g_connected) {
             snprintf(sig, sizeof sig, "C13/outcome/alg=%s/laddr=%s/want=connected/got=%s/tp=%s", ALGS[t_alg], lak, got, g_tp);
